@@ -169,3 +169,124 @@ Proof.
       * lia.
       * pose proof (delta_bits_nonempty P last v). rewrite app_length in Hfuel. lia.
 Qed.
+
+(* ---------- HashMatchAny: decode until EOF ---------- *)
+Lemma decode_all_fuel P : forall f1 f2 bs last,
+  (length bs < f1)%nat -> (length bs < f2)%nat -> decode_all f1 P bs last = decode_all f2 P bs last.
+Proof.
+  induction f1 as [|k1 IH]; intros f2 bs last H1 H2; [lia|].
+  destruct f2 as [|k2]; [lia|]. cbn [decode_all].
+  destruct (read_full P bs) as [[d bs']|] eqn:E; [|reflexivity].
+  apply read_full_consumes in E. rewrite (IH k2) by lia. reflexivity.
+Qed.
+
+Lemma decode_all_ok P : forall fuel bs last, (length bs < fuel)%nat -> exists vs, decode_all fuel P bs last = Ok vs.
+Proof.
+  induction fuel as [|k IH]; intros bs last H; [lia|]. cbn [decode_all].
+  destruct (read_full P bs) as [[d bs']|] eqn:E; [|eexists; reflexivity].
+  apply read_full_consumes in E. destruct (IH bs' (w64 (last + d)) ltac:(lia)) as [vs ->].
+  eexists. reflexivity.
+Qed.
+
+Definition last_of (last : N) (vals : list N) : N := List.last vals last.
+
+Lemma last_default_irrel {A} (x : A) l d d' : List.last (x :: l) d = List.last (x :: l) d'.
+Proof. revert x. induction l as [|y l IH]; intros x; [reflexivity|]. exact (IH y). Qed.
+
+Lemma last_of_cons last v t : last_of last (v :: t) = last_of v t.
+Proof.
+  unfold last_of. destruct t as [|w t]; [reflexivity|].
+  change (List.last (v :: w :: t) last) with (List.last (w :: t) last). apply last_default_irrel.
+Qed.
+
+Lemma decode_all_encode P : P <= 32 ->
+  forall vals fuel last rest,
+    chain last vals -> (length (encode P last vals ++ rest) < fuel)%nat ->
+    decode_all fuel P (encode P last vals ++ rest) last =
+      do r <- decode_all (S (length rest)) P rest (last_of last vals) ;; Ok (vals ++ r).
+Proof.
+  intros HP. induction vals as [|v t IH]; intros fuel last rest Hc Hfuel.
+  - cbn [encode app last_of List.last] in *.
+    rewrite (decode_all_fuel P fuel (S (length rest))) by lia.
+    destruct (decode_all (S (length rest)) P rest last); reflexivity.
+  - destruct fuel as [|k]; [lia|]. destruct Hc as (Hle & Hlt & Hc).
+    rewrite last_of_cons. remember (decode_all (S (length rest)) P rest (last_of v t)) as R eqn:HR.
+    cbn [decode_all encode] in *. rewrite <- app_assoc in *. rewrite read_full_delta by assumption.
+    assert (Ev : w64 (last + (v - last)) = v).
+    { unfold w64. replace (last + (v - last)) with v by lia. apply N.mod_small. exact Hlt. }
+    rewrite Ev. rewrite IH; try assumption.
+    + rewrite <- HR. destruct R; reflexivity.
+    + pose proof (delta_bits_nonempty P last v). rewrite app_length in Hfuel. lia.
+Qed.
+
+(* the zero pad bits decode only to repeats of the last value *)
+Lemma value_be_zeros n : value_be (repeat false n) 0 = 0.
+Proof. induction n; cbn [repeat value_be]; auto. Qed.
+
+Lemma firstn_repeat {A} (x : A) n m : (n <= m)%nat -> firstn n (repeat x m) = repeat x n.
+Proof.
+  revert m. induction n; intros m H; [reflexivity|]. destruct m; [lia|].
+  cbn [repeat firstn]. f_equal. apply IHn. lia.
+Qed.
+
+Lemma skipn_repeat {A} (x : A) n m : skipn n (repeat x m) = repeat x (m - n).
+Proof.
+  revert m. induction n; intros m; [rewrite Nat.sub_0_r; reflexivity|]. destruct m; [reflexivity|].
+  cbn [repeat skipn Nat.sub]. apply IHn.
+Qed.
+
+Lemma read_full_zeros P k :
+  read_full P (repeat false k) =
+    if (k <? S (N.to_nat P))%nat then None else Some (0, repeat false (k - S (N.to_nat P))).
+Proof.
+  unfold read_full. destruct k as [|k].
+  - reflexivity.
+  - cbn [repeat read_unary]. unfold read_bits. rewrite repeat_length.
+    change (S k <? S (N.to_nat P))%nat with (k <? N.to_nat P)%nat.
+    destruct (Nat.ltb_spec k (N.to_nat P)) as [Hlt|Hge]; [reflexivity|].
+    rewrite firstn_repeat by lia. rewrite skipn_repeat, value_be_zeros.
+    rewrite N.shiftl_0_l. reflexivity.
+Qed.
+
+Lemma decode_all_pad P last : last < two64 ->
+  forall fuel k, (k < fuel)%nat -> exists j, decode_all fuel P (repeat false k) last = Ok (repeat last j).
+Proof.
+  intros Hl. induction fuel as [|f IH]; intros k Hk; [lia|].
+  cbn [decode_all]. rewrite read_full_zeros.
+  destruct (k <? S (N.to_nat P))%nat eqn:E.
+  - exists 0%nat. reflexivity.
+  - apply Nat.ltb_ge in E.
+    assert (Ev : w64 (last + 0) = last) by (rewrite N.add_0_r; apply N.mod_small; exact Hl).
+    rewrite Ev. destruct (IH (k - S (N.to_nat P))%nat ltac:(lia)) as [j ->].
+    exists (S j). reflexivity.
+Qed.
+
+Lemma last_of_in last v t : In (last_of last (v :: t)) (v :: t).
+Proof.
+  unfold last_of. revert v. induction t as [|w t IH]; intros v; [left; reflexivity|].
+  right. exact (IH w).
+Qed.
+
+Lemma last_of_lt64 last vals : last < two64 -> chain last vals -> last_of last vals < two64.
+Proof.
+  intros Hl Hc. destruct vals as [|v t]; [exact Hl|].
+  pose proof (chain_lt64 _ _ Hc) as Hf. rewrite Forall_forall in Hf. apply Hf. apply last_of_in.
+Qed.
+
+(* decoding a written stream followed by at most-anything zero padding: same set of values *)
+Lemma decode_all_built P vals k fuel :
+  P <= 32 -> chain 0 vals -> vals <> [] -> (length (encode P 0 vals ++ repeat false k) < fuel)%nat ->
+  exists vs, decode_all fuel P (encode P 0 vals ++ repeat false k) 0 = Ok vs /\
+             forall x, mem x vs = mem x vals.
+Proof.
+  intros HP Hc Hne Hfuel. rewrite decode_all_encode by assumption.
+  assert (Hl : last_of 0 vals < two64) by (apply last_of_lt64; [reflexivity | exact Hc]).
+  destruct (decode_all_pad P (last_of 0 vals) Hl (S (length (repeat false k))) k) as [j ->].
+  { rewrite repeat_length. lia. }
+  cbn [rbind]. eexists. split; [reflexivity|].
+  intros x. rewrite mem_app. destruct vals as [|v t]; [congruence|].
+  assert (Hin : In (last_of 0 (v :: t)) (v :: t)) by apply last_of_in.
+  destruct (mem x (repeat (last_of 0 (v :: t)) j)) eqn:E; [|rewrite orb_false_r; reflexivity].
+  apply mem_true_iff in E. apply repeat_spec in E. subst x.
+  rewrite orb_true_r. symmetry. apply mem_true_iff. exact Hin.
+Qed.
